@@ -782,7 +782,10 @@ C12.manifest = {
     "text": "Unbounded, axiom-free theorems over a generic name type with decidable equality: (1) C12_is_partition: the "
             "repaired partition test (scan all names; reject a non-node or a repeated name; compare counts) is true IFF "
             "the communities are pairwise disjoint, contain only nodes and cover every node (pigeonhole over NoDup "
-            "lists); C12_not_partition_rejected / C12_rejects: anything else makes modularity return NotAPartition; "
+            "lists); C12_is_partition_state: the state-level transcription (reading nodes_map / nodes_map_rev through "
+            "get_node) decides the same definition on every state whose node indexes are coherent with its node list "
+            "(C12_nodes_coherentb_sound: coherence is a checkable predicate, evaluated on every case); "
+            "C12_not_partition_rejected / C12_rejects: anything else makes modularity return NotAPartition; "
             "(2) C12_modularity(+_of_partition): the value partitions.rs computes step by step (per-node out/in/undirected "
             "degrees with self-loops counted twice, their sums, m, the induced subgraph's edge weight) equals Newman's "
             "closed formula sum_c L_c/m - gamma*Kout_c*Kin_c/m^2 (undirected L_c/m - gamma*(K_c/2m)^2) with L_c, K_c, m "
@@ -807,16 +810,24 @@ C13.manifest = {
             "communities). The check evaluates it on the Louvain model's output for every generated case, and the exact "
             "modularity of the singletons and of every level (modularity_abs, proved equal to Newman's formula in C12) "
             "must be non-decreasing on single-edge graphs. C13_communities_is_last: louvain_communities = last level. "
-            "C13_move_gain / C13_move_gain_directed: moving a node from D to C changes modularity by exactly "
-            "(gain C - gain D)/2m resp. /m with the gains the code compares (field over Q), so with the repaired scan "
-            "order every accepted move strictly increases modularity.",
+            "Unbounded theorems behind monotonicity and termination: C13_move_gain_newman(_directed) - on any edge "
+            "multiset, moving a node u from u::D to C changes Newman's modularity by exactly (gain C - gain D)/2m "
+            "(directed: /m) where gain is the number the code compares (2*weight(u,X) - gamma*K_X*k_u/m; directed with "
+            "the weights in both directions, i.e. the repair of F16); C13_accepted_move_increases_Q(_directed); "
+            "C13_move_only_if_strictly_better - the model's update_best_com (own community first, ascending id, strict "
+            ">) moves a node only to a community whose gain is positive, maximal and STRICTLY larger than the gain of "
+            "staying; C13_aggregation_preserves_Q - relabelling edges by community, merging parallel edges by summing "
+            "(self-loops kept), smaller name first when undirected, preserves Newman's modularity for the induced "
+            "partition; C13_strict_chain_bounded - a strictly increasing chain inside a finite universe is no longer "
+            "than the universe; C13_move_gain(_directed) - the underlying algebra (field over Q).",
     "note": "PARTIAL: termination of the local-moving loop and the partition/nesting invariant are NOT proved for the "
             "model (the model carries explicit fuel; OutOfFuel would be reported as 'does not return'); they are "
             "established per generated case by the verified checker on the model's output and by the property oracle on "
             "the implementation's output (non-empty, partition, nested, exact modularity non-decreasing and first level "
-            ">= singletons on single-edge graphs, communities = last level, 2 s watchdog, no panic). The move-gain "
-            "theorems are algebra on the bookkeeping quantities; that the model's Stot / neighbour weights equal K_X / "
-            "k_uX is not proved. Correspondence: the model (transcription of louvain.rs after the repairs) receives the "
+            ">= singletons on single-edge graphs, communities = last level, 2 s watchdog, no panic). Missing link "
+            "between the theorems and the state-level model: the bookkeeping invariants L1-L3 (Stot[c] = K_c, "
+            "weights2com[c] = weight between u and c, generate_graph = aggregate) are not proved, so monotonicity and "
+            "termination of the MODEL do not follow formally. Correspondence: the model (transcription of louvain.rs after the repairs) receives the "
             "shuffle order that the implementation's own rand version derives from the seed (the harness replays "
             "StdRng::seed_from_u64(seed) + shuffle for every level size) and the levels are compared exactly as sets of "
             "sets, except on runs where the exact model meets a tie between unequal operands (binary64 may round the "
@@ -831,7 +842,9 @@ C17.manifest = {
             "(insertion sort of two permutations of a candidate list with distinct community ids is the same list), "
             "C17_best_com_order_independent (the community chosen for a node does not depend on the iteration order of "
             "the candidate HashMap), C17_neighbor_weights_order_independent (the weights towards neighbouring "
-            "communities do not depend on the iteration order of the neighbour HashSet). The model has no other hidden "
+            "communities do not depend on the iteration order of the neighbour HashSet), C17_edge_order_canonical (the "
+            "order in which generate_graph accumulates aggregated weights does not depend on the iteration order of "
+            "the edge HashMap). The model has no other hidden "
             "input: the shuffle order is an explicit argument derived from the seed.",
     "note": "Reproducibility across repeated calls (20x in process), rayon pools of 1/4/16 threads and 3 fresh "
             "processes is OBSERVED on the implementation by the oracle (outputs identical as sets of sets / node list + "
